@@ -127,6 +127,7 @@ def setParam (p : Params) (name : String) (v : Int) : Option Params :=
   match name with
   | "ibdValidationSkip" => some { p with ibdValidationSkip := n }
   | "retargetInterval" => some { p with retargetInterval := n }
+  | "halvingInterval" => some { p with halvingInterval := n }
   | "retargetTimespan" => some { p with retargetTimespan := n }
   | "maxKnownHeight" => some { p with maxKnownHeight := v }
   | "maxBlockSize" => some { p with maxBlockSize := n }
